@@ -1,7 +1,7 @@
 (* C04 — exported theorems only: each is closed by [exact] and followed by Print Assumptions. *)
 From Coq Require Import List ZArith Bool.
 From Verif Require Import Lib.Interleave.
-From Verif Require Import C04.Model C04.Spec C04.Proofs C04.Proofs_state C04.Proofs_main C04.Proofs_more.
+From Verif Require Import C04.Model C04.Spec C04.Proofs C04.Proofs_state C04.Proofs_decl C04.Proofs_main C04.Proofs_more.
 Import ListNotations.
 Open Scope Z_scope.
 
@@ -21,6 +21,14 @@ Print Assumptions c04_prop_code_sound.
 Theorem c04_holds : forall h ops, C04_holds h ops (run h ops).
 Proof. exact C04_holds_run. Qed.
 Print Assumptions c04_holds.
+
+(* what a gang is (declared mode / policy / minimum / group / origin, member set) after any history
+   is a function of the informer events alone: the cache refines the tracker [decl_step] that
+   prop_code runs next to the implementation's observations (clause 8) *)
+Theorem c04_declarations_follow_history : forall h ops,
+  proj (exec h init_state ops) = fold_left (decl_step h) ops [].
+Proof. exact declarations_follow_history. Qed.
+Print Assumptions c04_declarations_follow_history.
 
 (* membership partition: after every prefix of every protocol-conformant history (no Permit for a
    pod the cache holds as bound, no Permit / PostBind for a pod that is not a child of its gang at
